@@ -520,6 +520,8 @@ def minimise(runner, syms, pl, target, max_execs=260, max_seconds=45.0):
         return sig_compatible(signature(res, syms), target)
 
     min_tasks = 2 if target["class"] in ("race", "deadlock", "progress") or "object" in target else 1
+    if len(pl["tasks"]) < min_tasks:
+        min_tasks = len(pl["tasks"])  # a single caller whose operation runs threads of its own
 
     def min_switches(pl):
         # the first entry is the controller's initial hand-off
@@ -788,6 +790,12 @@ def c18_check(ctx, tier, budget=None, write_evidence=True, family=None, op=None)
     if agg.twice_total and agg.twice_same != agg.twice_total:
         machinery.append("determinism sample: %d of %d runs differed between two fresh processes" %
                          (agg.twice_total - agg.twice_same, agg.twice_total))
+    if agg.runs == 0:
+        machinery.append("no simulated run completed (%d workloads lost their reference runs%s)" %
+                         (len(agg.ref_failed), (": " + agg.ref_failed[0].get("why", "")) if agg.ref_failed else ""))
+    elif len(agg.ref_failed) * 4 > agg.workloads:
+        machinery.append("reference runs failed for %d workloads (%d ran): %s" %
+                         (len(agg.ref_failed), agg.workloads, agg.ref_failed[0].get("why", "")))
     for k in known_hits:
         print("KNOWN-FINDING: property=C18 %s (replay %s)" % (k["known"].get("what", k["what"]), k["replay"]), flush=True)
     for v in viol:
